@@ -9,15 +9,13 @@ import (
 
 // ---------------------------------------------------------------- crash images (C02)
 
-// recoverySteps is what is done with every crash image: load it, write more, sync, write, close, load.
-// (One load after the recovery: as built, a load of a file with blocks appended behind torn bytes reads a
-// garbage block header and allocates - and clears - up to 4 GiB, which dominates the run time.)
+// recoverySteps is what is done with every crash image: load it, write more, sync, load, write, close, load.
 func recoverySteps(level string) []Step {
 	if level == "ch" {
-		return []Step{{Ev: "open"}, {Ev: "put", Op: "ins", K: 1, P: 1}, {Ev: "put", Op: "upd", K: 2, P: 2}, {Ev: "sync"},
+		return []Step{{Ev: "open"}, {Ev: "put", Op: "ins", K: 1, P: 1}, {Ev: "put", Op: "upd", K: 2, P: 2}, {Ev: "sync"}, {Ev: "load"},
 			{Ev: "put", Op: "del", K: 1}, {Ev: "close"}, {Ev: "open"}}
 	}
-	return []Step{{Ev: "load"}, {Ev: "open"}, {Ev: "put", Op: "ins", K: 1, P: 1}, {Ev: "put", Op: "upd", K: 2, P: 2}, {Ev: "sync"},
+	return []Step{{Ev: "load"}, {Ev: "open"}, {Ev: "put", Op: "ins", K: 1, P: 1}, {Ev: "put", Op: "upd", K: 2, P: 2}, {Ev: "sync"}, {Ev: "load"},
 		{Ev: "put", Op: "del", K: 1}, {Ev: "close"}, {Ev: "load"}}
 }
 
@@ -163,7 +161,7 @@ func (x *Exec) runCrash(h *History) {
 			for i, b := range offs {
 				t := &image{exists: im.exists, data: append([]byte(nil), im.data...)}
 				t.apply(op, b)
-				full := i == 0 || i == len(offs)-1 || i == len(offs)/2
+				full := i == 0 || i == len(offs)-1 || i == len(offs)/2 || len(op.Data) <= 16
 				add(key{op.Ev, op.Idx, "part"}, op.Kind, observe(t, full))
 			}
 			im.apply(op, len(op.Data))
@@ -261,7 +259,16 @@ func (x *Exec) runFault(h *History) {
 	}
 	type pair struct{ a, b Fault }
 	var pairs []pair
-	for at := 1; at <= n0; at++ {
+	start := 1
+	if x.cfg.Compact { // only the operations around the compaction: the rest is covered by the short histories
+		for i, op := range base.ops {
+			if op.Path != base.path {
+				start = max(1, i+1-7)
+				break
+			}
+		}
+	}
+	for at := start; at <= n0; at++ {
 		for _, m := range modes(base, at) {
 			r1 := emit([]Fault{{At: at, Mode: m}})
 			if x.cfg.Faults >= 2 {
